@@ -463,6 +463,12 @@ def _b_chain_from(it, xs):
 def _b_product(it, *xs, repeat=1):
     ls = [it.iterate(x) for x in xs] * repeat
     return GenList(itertools.product(*ls))
+def _b_islice(it, xs, *a):
+    items = it.iterate(xs)
+    if any(is_sym(x) for x in a): raise Outside('islice with symbolic bounds')
+    return GenList(itertools.islice(items, *a))
+def _b_zip_longest(it, *xs, fillvalue=None):
+    return GenList(itertools.zip_longest(*[it.iterate(x) for x in xs], fillvalue=fillvalue))
 def _b_repeat(it, x, n=None):
     if n is None: raise Outside('infinite repeat')
     return GenList([x] * n)
@@ -474,6 +480,6 @@ DEFAULT_BUILTINS = {
     str: _b_str, float: _b_float, repr: _b_repr, id: _b_id, hash: _b_hash, getattr: _b_getattr, hasattr: _b_hasattr, setattr: _b_setattr,
     callable: _b_callable, sorted: _b_sorted, set: _b_set, frozenset: _b_frozenset, dict: _b_dict, range: _b_range,
     divmod: _b_divmod, abs: _b_abs, next: _b_next, functools.reduce: _b_reduce, itertools.starmap: _b_starmap,
-    itertools.chain: _b_chain, itertools.chain.from_iterable: _b_chain_from, itertools.product: _b_product,
+    itertools.chain: _b_chain, itertools.chain.from_iterable: _b_chain_from, itertools.product: _b_product, itertools.islice: _b_islice, itertools.zip_longest: _b_zip_longest,
     itertools.repeat: _b_repeat,
 }
